@@ -248,4 +248,7 @@ def item_lists(tier, min_size=0, max_size=10, keys=None):
     plain = st.lists(st.tuples(keys, valspecs(tier)), min_size=min_size, max_size=max_size)
     with_fan = st.builds(lambda a, f, b: a + f + b, plain, fan_items(),
                          st.lists(st.tuples(keys, valspecs(tier)), max_size=3))
-    return st.one_of([plain] * 7 + [with_fan])
+    mirror = mirror_fragments().map(lambda ops: [(op[1][1], op[2]) for op in ops])
+    with_mirror = st.builds(lambda a, m, b: a + m + b, plain, mirror,
+                            st.lists(st.tuples(keys, valspecs(tier)), max_size=3))
+    return st.one_of([plain] * 6 + [with_fan] + [with_mirror] * 2)
